@@ -48,6 +48,7 @@ type sseClientTransport struct {
 	notificationMu sync.RWMutex                            // Mutex for notification handler.
 
 	started      atomic.Bool   // Flag indicating if transport is started.
+	startMu      sync.Mutex    // Serializes start(): one SSE stream however many goroutines issue the first request.
 	closed       atomic.Bool   // Flag indicating if transport is closed.
 	retryConfig  *retry.Config // Retry configuration for requests.
 	endpointChan chan struct{} // Channel to signal when endpoint is received.
@@ -131,6 +132,10 @@ func WithCustomTransport(transportSetter func(*Client)) ClientOption {
 
 // Start establishes the SSE connection to the server and waits for the endpoint URL.
 func (t *sseClientTransport) start(ctx context.Context) error {
+	// Only one caller establishes the stream; a failed attempt leaves the transport startable again.
+	t.startMu.Lock()
+	defer t.startMu.Unlock()
+
 	if t.closed.Load() {
 		return errors.New("transport is closed")
 	}
